@@ -140,6 +140,14 @@ def parse_terse(out):
     return res
 
 
+def _limit_memory():
+    """every cbmc / solver process of a harness runs under a 20 GB address-space limit: exceeding it
+    makes the harness undecided instead of endangering the machine"""
+    import resource
+    lim = int(os.environ.get("VERIF_KANI_MEM_GB", "20")) * (1 << 30)
+    resource.setrlimit(resource.RLIMIT_AS, (lim, lim))
+
+
 def run_harnesses(wc, harnesses, outdir, jobs=8, extra_env=None, solver_cli=None, extra_args=None, tag="main"):
     """Run the given harness specs in working copy `wc` with ONE cargo-kani invocation
     (`-j`, terse output, per-harness timeout).  Returns {harness path: result-dict}."""
@@ -165,7 +173,7 @@ def run_harnesses(wc, harnesses, outdir, jobs=8, extra_env=None, solver_cli=None
     rounds = (len(harnesses) + jobs - 1) // jobs
     try:
         p = subprocess.run(cmd, cwd=wc, env=env, capture_output=True, text=True,
-                           timeout=timeout * rounds + 900)
+                           timeout=timeout * rounds + 900, preexec_fn=_limit_memory)
         out = p.stdout + "\n" + p.stderr
     except subprocess.TimeoutExpired as e:
         so = e.stdout.decode() if isinstance(e.stdout, bytes) else (e.stdout or "")
